@@ -279,3 +279,82 @@ def scratch(ctx):
     d = os.path.join(ctx.run_dir(), "w%d" % os.getpid())
     os.makedirs(d, exist_ok=True)
     return d
+
+
+# --------------------------------------------------------------------------------------------------
+# flat feeders: the concatenation of ALL white-noise requests of one sampling call is treated as one
+# white vector xi; feeding basis vectors of that space gives the columns of the sampling factor T
+# --------------------------------------------------------------------------------------------------
+
+@contextlib.contextmanager
+def classic_feed_flat(white=None, skip=0, skip_seed=0):
+    """Patch nifty.cl.random.Random.normal.  The first `skip` calls get seeded pseudo-random normals
+    (preconditioner probes); afterwards consecutive slices of `white` are handed out (zeros if
+    `white` is None: dry run).  Yields the list of requested sizes (after the skipped calls)."""
+    from nifty.cl import random as nrandom
+    orig = nrandom.Random.normal
+    rng = np.random.default_rng([77, skip_seed])
+    state = {"calls": 0, "off": 0}
+    sizes = []
+
+    def fake(dtype, shape, mean=0., std=1.):
+        shp = tuple(shape) if hasattr(shape, "__len__") else (int(shape),)
+        sz = int(np.prod(shp)) if shp else 1
+        state["calls"] += 1
+        if state["calls"] <= skip:
+            return (rng.normal(size=shp) * std + mean).astype(dtype)
+        sizes.append(sz)
+        if white is None:
+            v = np.zeros(sz)
+        else:
+            v = np.asarray(white[state["off"]:state["off"] + sz], dtype=np.float64)
+            if v.size != sz:
+                raise RuntimeError("flat feeder exhausted: need %d more entries" % sz)
+        state["off"] += sz
+        return (v.reshape(shp) * std + mean).astype(dtype)
+
+    nrandom.Random.normal = staticmethod(fake)
+    try:
+        yield sizes
+    finally:
+        nrandom.Random.normal = orig
+
+
+@contextlib.contextmanager
+def jax_feed_flat(white=None):
+    """Patch nifty.re.evi.random_like: consecutive slices of `white` (zeros if None).  Yields a
+    dict with the requested sizes and the PRNG keys the implementation passed."""
+    import jax
+    import jax.numpy as jnp
+    from nifty.re import evi
+    from nifty.re.tree_math import ShapeWithDtype
+    orig = evi.random_like
+    info = {"sizes": [], "keys": [], "off": 0}
+
+    def fake(key, primals=None, *a, **k):
+        if primals is None:
+            primals = a[0]
+        info["keys"].append(np.asarray(jax.random.key_data(key)).tolist()
+                            if hasattr(jax.random, "key_data") else np.asarray(key).tolist())
+        leaves, treedef = jax.tree_util.tree_flatten(primals, is_leaf=lambda x: isinstance(x, ShapeWithDtype))
+        out, tot = [], 0
+        for l in leaves:
+            shp = tuple(l.shape)
+            sz = int(np.prod(shp)) if shp else 1
+            if white is None:
+                v = np.zeros(sz)
+            else:
+                v = np.asarray(white[info["off"]:info["off"] + sz], dtype=np.float64)
+                if v.size != sz:
+                    raise RuntimeError("flat feeder exhausted")
+            info["off"] += sz
+            tot += sz
+            out.append(jnp.asarray(v.reshape(shp)))
+        info["sizes"].append(tot)
+        return jax.tree_util.tree_unflatten(treedef, out)
+
+    evi.random_like = fake
+    try:
+        yield info
+    finally:
+        evi.random_like = orig
